@@ -86,12 +86,13 @@ Proof.
   destruct (impl_eq_ref _ _ _ _ _ Gp HS NO) as (r & EM & RL & _). exists r. auto.
 Qed.
 
-(* ---- the guard is closed under contexts: any nesting of the 14 frame kinds ---------------------------- *)
+(* ---- the guard is closed under contexts: any nesting of the 16 frame kinds ---------------------------- *)
 (* the forms of a frame next to the hole are lexically scoped *)
 Definition side_ok1 (F : frame) (R G : list N) : bool :=
   match F with
   | FProgn _ post | FWhen _ post | FLet _ post | FArg _ post | FIgnore _ post | FMutex _ _ post | FFile _ _ post
-  | FLam _ post => g_all gd R G post
+  | FLam _ post | FUnless _ post => g_all gd R G post
+  | FIf b => gd R G b
   | FBlock t _ post => g_all gd (t :: R) G post
   | FUnwind _ _ => true
   | FRecover h _ post => gd R G h && g_all gd R G post
@@ -129,6 +130,7 @@ Proof.
     rewrite S2, andb_true_r. apply g_items_hole; assumption.
   - (* do *) apply andb_true_iff in S. destruct S as [S1 S2]. rewrite tags_tri. cbn [tags_of].
     rewrite S2, andb_true_r. apply g_items_hole; assumption.
+  - (* if *) rewrite H, S. reflexivity.
 Qed.
 
 Lemma compound_plug1 : forall F x, compound (plug1 F x) = true.
@@ -260,7 +262,7 @@ Example ex_prog_in_guard :
      ECleanup 2; ETr 5 1 0; ECleanup 1; ETr 6 0 0]%N.
 Proof. vm_compute. repeat split; reflexivity. Qed.
 
-(* a context made of all fourteen frame kinds, the hole in a non-last position of each body, in an
+(* a context made of all sixteen frame kinds, the hole in a non-last position of each body, in an
    argument position, in a tagbody statement and in two loop bodies: it satisfies the hypotheses of
    exit_through_context / M_return_through_any_context for a return, a go and an error, and the final state
    shows the order: cleanup of the inner unwind-protect (file still open, mutex held), file closed, mutex
@@ -269,7 +271,7 @@ Definition E_ex : list frame :=
   [FUnwind 1%N [10%N]; FMutex 0%N [11%N] [Tr 97%N]; FBlock 2%N [12%N] [Tr 99%N]; FLoop KDotimes 1 [13%N] [] (Const LNil);
    FFile 1%N [] [Tr 96%N]; FUnwind 2%N [20%N]; FTagbody [14%N] [ITag 3%N]; FLam [] [Tr 95%N]; FLet [] [Tr 98%N];
    FProgn [] [Tr 94%N]; FWhen [] [Tr 93%N]; FArg [15%N] [Tr 92%N]; FIgnore [] [Tr 91%N]; FRecover (Tr 90%N) [] [Tr 89%N];
-   FDo 1 [] [] [Tr 88%N]].
+   FDo 1 [] [] [Tr 88%N]; FUnless [] [Tr 87%N]; FIf (Tr 86%N)].
 Example E_ex_ok :
   transp E_ex (Ret 1%N (VInt 5)) = true /\ transp E_ex (Goto 7%N) = true /\ transp E_ex (Err CDivZero) = false /\
   transp (firstn 12 E_ex) (Err CDivZero) = true /\
